@@ -127,7 +127,8 @@ def run_property(chk, prop, prop_file, req, rule, assumptions, only=None):
         import subprocess
         limit = 240 if chk.tier == "quick" else 3000
         try:
-            data, secs = vlib.run_harness("atroll", chk.tmp("atroll.json"), timeout=limit, seed=chk.seed, **SIZES[prop][chk.tier])
+            data, secs = vlib.run_harness("atroll", chk.tmp("atroll.json"), timeout=limit, seed=chk.seed,
+                                          budget_s=(60 if chk.tier == "quick" else 1500), **SIZES[prop][chk.tier])
         except subprocess.TimeoutExpired:
             # on the unchanged tree the run takes a few seconds; a rollback that leaves its local transaction
             # open (never finished sql.Tx) blocks the engine's teardown for good
@@ -142,6 +143,8 @@ def run_property(chk, prop, prop_file, req, rule, assumptions, only=None):
         json.dump({"plans": only}, open(p, "w"))
         data, secs = vlib.run_harness("atroll", chk.tmp("atroll.json"), timeout=600, seed=chk.seed, replay=p)
     cases = data["cases"] or []
+    if data.get("truncated"):
+        chk.notes.append("harness stopped at its wall-clock budget after %d cases" % len(cases))
     clean = [c for c in cases if not c["excluded"]]
     excluded = [c for c in cases if c["excluded"]]
     # ---- direct oracle: the property's own statement on the real run
@@ -164,6 +167,9 @@ def run_property(chk, prop, prop_file, req, rule, assumptions, only=None):
                           dict(slim(clean[i]), model_disagreements=[ERR[e] for e in sorted(set(mism[i]))],
                                correspondence="At/RollbackCases.v check_case"), False)
             break
+    if data.get("truncated") and not chk.violations:
+        chk.violation("%s: the run through the real rollback path exhausted its wall-clock budget (steps or teardown blocked) "
+                      "without a property violation being observed" % prop, {"harness": "atroll", "cases_run": len(cases)}, False)
     if not pr["ok"] and not chk.violations:
         chk.violation("a proof obligation of %s no longer checks (the generated table Gen/UndoFlow.v changed, or a proof broke)" % prop,
                       {"theorem": prop_file, "coq_output": pr["out"][-1500:]}, False)
